@@ -29,6 +29,8 @@ def install_pdu_length_contract():
 
     done = []
     for cls in set(pdu.pdu_type_map.values()) | {pdu.UnknownProtocolDataUnit}:
+        if cls is pdu.AggregatedFrame:
+            continue    # nested aggregates recurse through encode(): wrapper frames would multiply the stack depth
         if "encode" in cls.__dict__ and not getattr(cls.encode, "_vf", False):
             f = icontract.ensure(encoded_length_matches, error=_len_error)(cls.__dict__["encode"])
             f._vf = True
